@@ -1432,6 +1432,8 @@ M("RFM-table-per-context-cell", ["C19"], [("@patch", "selftest/mutants_rf/table-
 M("RFM-first-decoded-error-stops", ["C20"], [("@patch", "selftest/mutants_rf/first-err-stops.diff", "")], ["C20/lookup/response_topic/payload"])
 M("RFM-connect-flags-struct-credentials", ["C09"], [("@patch", "selftest/mutants_rf/flags-struct.diff", "")], ["C09/bits/connect/password-flag"])
 M("RFM-negotiated-window-unclamped", ["C06"], [("@patch", "selftest/mutants_rf/negotiated-unclamped.diff", "")], ["C06/init/max-value"])
+M("RFM-enumerate-index-over-skipped-iterator", ["C03"], [("@patch", "selftest/mutants_rf/enumerate-skip.diff", "")], ["C03/comp/removes-the-acknowledged-entry"])
+RF("RF-head-first-lookup-with-offset", ALL19, [("@patch", "selftest/refactors/RF-head-first-lookup.diff", "")])
 
 # fourth round: organisational refactorings (guard clauses, sub-borrows, loop forms, private structs, generic helpers)
 for _p in sorted(_glob.glob(_os.path.join(_os.path.dirname(_os.path.abspath(__file__)), "refactors", "rf4", "*.diff"))):
